@@ -16,6 +16,10 @@ GROUPS = [
 ]
 
 NATIVE = [
+    dict(name="text_input_enum", source="native/text_input_enum.c", repo_sources="ALL_EXCEPT:", cflags=["-w", "-fsanitize=address", "-Dexit=ssw_exit"],
+         args={"quick": [], "thorough": ["thorough"]}, exhaustive=True, timeout=3000,
+         bound="EVERY token sequence of bounded length through the real parsers, exact-size heap blocks under AddressSanitizer, exit()/abort()/hangs trapped, returned objects used and freed: "
+               "FSG text (21 tokens, <= 4 after FSG_BEGIN, thorough 5), JSON configuration (12 tokens, <= 5, thorough 6), JSGF (20 tokens after the header, <= 4, thorough 5); about 660 000 texts per quick run"),
     dict(name="dict_text_enum", source="native/dict_text_enum.c", repo_sources="ALL_EXCEPT:dict.c,ckd_alloc.c", cflags=["-w", "-fsanitize=address"],
          args={"quick": [], "thorough": ["thorough"]}, exhaustive=True,
          bound="EVERY dictionary text of <= 5 bytes (thorough 6) over a 10-letter alphabet (phones, lower case, space, newline, #, ;, parentheses, digit): 111 111 texts through the real dict_read_s3file / tokenisers / dict_add_word / hash table, exact-size heap blocks under AddressSanitizer, exit() trapped"),
@@ -26,8 +30,10 @@ ASSUMPTIONS = [
     "phone lookup is a stub in the bounded runs (upper-case letters are phones)",
 ]
 HAND_LEMMAS = []
-NOT_COVERED = ["the generated JSGF scanner and parser (3 700 lines of table-driven code) and jsgf.c expansion (only the refusal clause, C05)", "fsg_model_read_s3file (seeded change C10_A)", "config.c + jsmn.h JSON / key-value configuration parser (seeded change C10_B)", "decoder_set_align_text", "cmn_set_repr", "objects returned from such input can be used and freed"]
+NOT_COVERED = ["the JSGF scanner / parser (3 700 lines of generated table-driven code), fsg_model_read_s3file and config_parse_json are NOT under contract; they are decided by the exhaustive token-sequence enumeration text_input_enum (bounded stand-in, never counted as proved)",
+               "texts outside the token families or longer than the stated number of tokens; arbitrary BYTE sequences for JSGF / FSG / JSON (only the dictionary reader is enumerated byte-wise)",
+               "decoder_set_align_text", "cmn_set_repr (see C08)", "key=value (non-JSON) configuration strings beyond the bare tokens of the JSON family"]
 CLAIM = dict(
-    text="The line and word tokenisers that every text reader is built on (s3file_nextline, s3file_nextword) are proved with loop invariants and termination to stay inside the text for inputs of any length up to 1 MB. decoder_add_word's phone-string parser is checked by CBMC on every phone string of <= 3 characters (bounded). The dictionary reader is checked by exhaustive native enumeration of all 111 111 texts of <= 5 bytes over a 10-letter alphabet under AddressSanitizer with exit() trapped (bounded stand-in), which found two genuine defects (fixed). JSGF, FSG and configuration parsers are NOT covered.",
-    note="tokeniser proofs + bounded parser check + native enumeration for the dictionary reader; JSGF/FSG/config parsers not covered; trusted: CBMC 6.11, ASan",
-    technique="CBMC function + loop contracts (goto-instrument --dfcc) for the tokenisers; CBMC bounded run for the phone parser; native exhaustive enumeration as bounded stand-in for the dictionary reader")
+    text="The line and word tokenisers that every text reader is built on (s3file_nextline, s3file_nextword) are proved with loop invariants and termination to stay inside the text for inputs of any length up to 1 MB. decoder_add_word's phone-string parser is checked by CBMC on every phone string of <= 3 characters (bounded). The dictionary reader is checked by exhaustive native enumeration of all 111 111 texts of <= 5 bytes over a 10-letter alphabet under AddressSanitizer with exit() trapped (bounded stand-in), which found two genuine defects (fixed). The FSG reader, the JSON configuration parser and the JSGF parser + compiler are checked by exhaustive native enumeration of every token sequence of bounded length (about 660 000 texts per quick run) in exact-size heap blocks under AddressSanitizer with exit(), abort() and hangs trapped, and every returned object is used and freed (bounded stand-in, not proof); it found one more genuine defect (FSG reader running strtol off the end of an in-memory file), fixed.",
+    note="tokeniser proofs + bounded parser check + native exhaustive enumerations (dictionary bytes; FSG / JSON / JSGF token sequences) as bounded stand-ins; trusted: CBMC 6.11, ASan",
+    technique="CBMC function + loop contracts (goto-instrument --dfcc) for the tokenisers; CBMC bounded run for the phone parser; native exhaustive enumerations as bounded stand-ins for the dictionary reader and the FSG / JSON / JSGF parsers")
